@@ -211,6 +211,11 @@ def eq_pairs(ids, canon=None):
     return pairs, ex, bad_law, bad_canon
 
 
+def unvalidated_ids(wire_ops):
+    """ids of the values announced with validate=False in a list of wire operations (they must be canonical)"""
+    return [op[1] for op in wire_ops if op and op[0] == 'announce' and op[2] is None and op[3] is False and op[1] is not None]
+
+
 def canon_ids(conv, valid, caches):
     """ids of the values that can reach the cache: every result of the datatype's conversion / validation, and every
     value seen in a cache (`caches`: Python-level observations ['v', id] / ['e', id])"""
@@ -695,7 +700,10 @@ def impl_seq(case, errs, tables):
         main = next(st[1][1] for st in steps if st[1][0] == 'activate')
         for o in outs:
             o['msgs'] = [[ve, t] for _, ve, t in o['recv'][main]]
-        pairs, ex, bad_law, bad_canon = eq_pairs(ids, canon_ids(conv, valid, [init_py] + [o['cache_py'] for o in outs]))
+        canon = canon_ids(conv, valid, [init_py] + [o['cache_py'] for o in outs])
+        pairs, ex, bad_law, bad_canon = eq_pairs(ids, canon)
+        bad_canon += [['announced with validate=False but not a result of the datatype', repr(ids.vobj[i][1])]
+                      for i in unvalidated_ids([o['op'] for o in ops]) if i not in canon_ids(conv, valid, [])]
         req = {'p': 'C05', 'k': 'seq', 'eq': pairs, 'conv': conv, 'valid': valid, 'entry': entry, 'ops': ops,
                'cids': list(range(1, len(conns) + 1))}
         return {'req': req, 'outs': outs, 'init_x': init_x, 'init_py': init_py, 'ex': ex, 'bad_law': bad_law, 'bad_canon': bad_canon,
@@ -944,6 +952,9 @@ def impl_conc(case, errs, tables, policy):
             logs_t.append(pert)
         final = [cache_obs(ids, m, pid) for pid in range(npar)]
         pairs, ex, bad_law, bad_canon = eq_pairs(ids, canon_ids(conv, valid, [f[0] for f in final]))
+        bad_canon += [['announced with validate=False but not a result of the datatype', repr(ids.vobj[i][1])]
+                      for prog in case['progs'] for pid, op in prog if op[0] == 'announce'
+                      for i in unvalidated_ids([wire_op(ids, case, pid, op, errs, nconn)]) if i not in canon_ids(conv, valid, [])]
         req = {'p': 'C05', 'k': 'conc', 'eq': pairs, 'conv': conv, 'valid': valid, 'entries': entries,
                'conns': visit_order, 'tick': case['tick'], 'clock': clock0,
                'progs': [[{'activate': op[1] % nconn + 1, 'ps': conc_pids(op[2], op[3], npar)} if op[0] == 'activate' else
